@@ -78,7 +78,7 @@ type forwarder struct {
 	lastMove           int64 // unix nano of the last forwarded byte
 	liveSince          int64 // unix nano since when a carrier forwarding in both directions is connected (0 = none)
 	liveConns          int32
-	usable    int32 // carriers currently forwarding in both directions (not black-holed)
+	usable             int32 // carriers currently forwarding in both directions (not black-holed)
 }
 
 func newForwarder(target string, plan *sessionPlan, res *vlib.Result) (*forwarder, error) {
@@ -196,7 +196,7 @@ func (f *forwarder) serve(c net.Conn, p carrierPlan, idx int) {
 		}
 	}
 	up, down := p.CutUp, p.CutDown
-	if p.Kind == "healthy" || p.Kind == "delay" || p.Kind == "handoff" {
+	if p.Kind == "healthy" || p.Kind == "delay" || p.Kind == "handoff" || p.Kind == "handoff-overlap" {
 		up, down = -1, -1
 	}
 	if atomic.AddInt32(&f.liveConns, 1) == 1 {
@@ -565,10 +565,31 @@ func (m *modelClient) dial(ctx context.Context) (net.PacketConn, error) {
 			}
 			i++
 		}
+		var c0 net.PacketConn
+		if p.Kind == "handoff-overlap" && m.handoff != nil {
+			// a first carrier presents the ClientID with one address and stays;
+			// a second carrier presents it with another address; only then does
+			// the first one leave, and the server is given time to finish with it
+			// before the first packet establishes the session over the second
+			if c, err := m.openCarrier(ctx, m.ipFor(i)); err == nil {
+				m.handoff(1)
+				c0 = c
+			}
+			i++
+		}
 		c1, err := m.openCarrier(ctx, m.ipFor(i))
 		if err != nil {
+			if c0 != nil {
+				c0.Close()
+			}
 			time.Sleep(5 * time.Millisecond)
 			continue
+		}
+		if c0 != nil {
+			m.handoff(2)
+			c0.Close()
+			time.Sleep(200 * time.Millisecond) // synchronisation aid only: lets the first carrier's handler end
+			m.res.Obs("handoff_overlapping_first_carriers", 1)
 		}
 		m.plan.mu.Lock()
 		m.plan.carriersUsed++
